@@ -78,7 +78,19 @@ func run(c config, hist []int, reuse bool) (*emitted, *vsched.Result) {
 			case 0, 1, 2, 10:
 				shape := []int{0, 3, 1}[a%10]
 				wseq++
-				h, p := hk.Shape(shape, l1.Info.SSRC, wseq, uint32(wseq)*3000)
+				ssrc := l1.Info.SSRC
+				if a == 2 && wseq%2 == 0 {
+					// a repair packet the application builds itself: written on the stream's writer with the
+					// stream's RTX SSRC (every other packet of this shape; the first write of a history is odd)
+					ssrc = l1.Info.SSRCRetransmission
+				}
+				h, p := hk.Shape(shape, ssrc, wseq, uint32(wseq)*3000)
+				if ssrc != l1.Info.SSRC {
+					p = make([]byte, 50) // the shape itself has no payload
+					for j := range p {
+						p[j] = byte(j*5) ^ byte(wseq)
+					}
+				}
 				if a == 10 {
 					// one byte more than the 1460-byte buffers the pacers and the responder pool
 					p = make([]byte, 1461)
